@@ -106,6 +106,7 @@ class Program:
         self.lib_int_enums: set[str] = set()
         self.lib_classes: set[str] = set()
         self.spacepackets_version = "?"
+        self.role_notes: list[str] = []
         self.digest = ""
         self._load()
         self._load_lib_enums()
@@ -133,6 +134,13 @@ class Program:
             MODEL_FILES[modname] = str(path)
             self.modules[modname] = mi
         self.digest = h.hexdigest()[:16]
+        # private attributes/classes are recognised by structure and renamed (in the parsed trees only) to the
+        # canonical names used by the rule tables, so that private renames in the analysed tree do not matter
+        from .roles import canonicalise
+        trees = {m: mi.tree for m, mi in self.modules.items()}
+        self.role_notes = canonicalise(trees)
+        for m, t in trees.items():
+            self.modules[m].tree = t
         for mi in self.modules.values():
             self._index_module(mi)
         # resolve re-exports through package __init__ (from cfdppy import CfdpUserBase)
